@@ -27,6 +27,8 @@ def cfg_for_case(rng, k: int) -> GenCfg:
         c.extensible = False
     elif r == 1:
         c.n_imports = (1, 2)
+        c.p_import_chain = 0.5
+        c.p_transitive_ref = 0.5
         c.p_nested = 0.5
     elif r == 2:
         c.msg_bits = 4000
@@ -36,6 +38,7 @@ def cfg_for_case(rng, k: int) -> GenCfg:
     elif r == 4:
         c.max_depth = 4
         c.p_nested = 0.6
+        c.digit_fields = 0.4
     elif r == 5:
         c.msg_bits = 64
         c.max_fields = 10
